@@ -47,7 +47,15 @@ fn row(p: &str, names: &[String]) -> (Value, u64, u64) {
 /// S->I: compile verdict and match verdicts of one pattern against the current name list
 pub fn patrow(st: &State, input: &Value) -> Out {
     let p = to_string(&input["p"]);
-    let (v, e, n) = row(&p, &st.names);
+    let (mut v, mut e, mut n) = row(&p, &st.names);
+    // row-specific extra names (the pattern's own expansions and near-misses)
+    if let Some(xs) = input.get("xs").and_then(|x| x.as_array()) {
+        let xs: Vec<String> = xs.iter().map(to_string).collect();
+        let (v2, e2, n2) = row(&p, &xs);
+        v["xm"] = v2["m"].clone();
+        e += e2;
+        n += n2;
+    }
     Out::new(v, e, n)
 }
 
